@@ -859,7 +859,17 @@ int32 parseClientKeyExchange(ssl_t *ssl, int32 hsLen, unsigned char **cp,
         }
         else
         {
+            if (end - c < 1)
+            {
+                ssl->err = SSL_ALERT_DECODE_ERROR;
+                return MATRIXSSL_ERROR;
+            }
             pubKeyLen = *c; c++;
+            if ((int32) (end - c) < pubKeyLen)
+            {
+                ssl->err = SSL_ALERT_DECODE_ERROR;
+                return MATRIXSSL_ERROR;
+            }
         }
 #  endif
         }
@@ -1055,8 +1065,18 @@ int32 parseClientKeyExchange(ssl_t *ssl, int32 hsLen, unsigned char **cp,
         {
             /* SSLv3 for basic PSK suites will not have read off
                 pubKeyLen at this point */
+            if (end - c < 2)
+            {
+                ssl->err = SSL_ALERT_DECODE_ERROR;
+                return MATRIXSSL_ERROR;
+            }
             pubKeyLen = *c << 8; c++;
             pubKeyLen += *c; c++;
+            if ((int32) (end - c) < pubKeyLen)
+            {
+                ssl->err = SSL_ALERT_DECODE_ERROR;
+                return MATRIXSSL_ERROR;
+            }
         }
         rc = matrixSslPskGetKey(ssl, c, pubKeyLen, &pskKey, &pskLen);
         if (rc < 0 || pskKey == NULL)
@@ -1093,7 +1113,17 @@ int32 parseClientKeyExchange(ssl_t *ssl, int32 hsLen, unsigned char **cp,
             /* Support ECC ciphers in SSLv3.  This isn't really a
                 desirable combination and it's a fuzzy area in the
                 specs but it works */
+            if (end - c < 1)
+            {
+                ssl->err = SSL_ALERT_DECODE_ERROR;
+                return MATRIXSSL_ERROR;
+            }
             pubKeyLen = *c; c++;
+            if ((int32) (end - c) < pubKeyLen)
+            {
+                ssl->err = SSL_ALERT_DECODE_ERROR;
+                return MATRIXSSL_ERROR;
+            }
         }
         if (ssl->keys == NULL)
         {
